@@ -158,7 +158,7 @@ FGRID = [0.0, -0.0, 1.0, -1.0, 0.5, -0.5, 2.0, 3.0, 1e308, -1e308, 5e-324, -5e-3
          2.2250738585072014e-308, 1e-310, 1e16, 1e15, 0.1, 0.2, 1.5, -2.5,
          float("inf"), float("-inf"), float("nan"), 9007199254740993.0, 1e-5]
 FOPS = {"add": "+", "subtract": "-", "multiply": "*", "divide": "/", "pow": "**",
-        "greater": ">", "greater_equal": ">=", "lower": "<", "lower_equal": "<="}
+        "greater": ">", "greater_equal": ">=", "lower": "<", "lower_equal": "<=", "equal": "==", "not_equal": "!="}
 
 
 def fbits(x):
@@ -187,7 +187,7 @@ def fcases(tier, seed):
     rnd = random.Random(seed + 1)
     out = []
     for op, sym in FOPS.items():
-        kind = "bool" if op in ("greater", "greater_equal", "lower", "lower_equal") else "float"
+        kind = "bool" if op in ("greater", "greater_equal", "lower", "lower_equal", "equal", "not_equal") else "float"
         for a in FGRID:
             for b in FGRID:
                 progs = {"runtime": "f := (a: float, b: float) -> %s { return a %s b }; f(%s, %s)" % (kind, sym, fsrc(a), fsrc(b))}
